@@ -51,6 +51,36 @@ CHECKS = {
         text='Hostile form soups (near-valid dates/weeks/numbers, arbitrary dir/lang/type), XML with unknown namespaces, detached fragments, multiple top-level nodes and odd-typed attribute values (None, numbers, bytes, tuples, nested lists) are queried with one probe per pseudo-class (plain and negated) plus random full-grammar selectors through all six entry points.',
         note='Trusted: the generator keeps odd-typed values on attributes only attribute/class/id selectors read, as the statement scopes it.',
         ref='DESIGN.md 3/C08'),
+    'C11': dict(
+        technique='property-based differential testing: one logical recipe materialised as 7 document flavours, case-varied witness-directed selectors judged by the reference matcher under the documented case rule',
+        text='The same recipe (mixed-case element/attribute names and values) is built as html.parser, lxml, html5lib, API-HTML with upper-case names, XHTML, lxml-xml and API-XML; selectors with independently case-varied names, values and i/s flags must select what the reference designates under the HTML vs XML rule; HTML-only pseudo-classes are probed on XML form documents and must select nothing. The document type used by the reference is cross-checked against the flavour requested.',
+        note='Trusted: reference matcher case rules (ASCII folding), the flavour table (which kinds are XML / XHTML).',
+        ref='DESIGN.md 3/C11'),
+    'C12': dict(
+        technique='property-based differential testing against a URI-comparing reference matcher, plus a prefix-renaming metamorphic relation',
+        text='Generated namespace-aware documents (lxml-xml with declared/redeclared/undeclared namespaces, API-built XML with arbitrary (namespace, prefix) pairs and namespaced attributes, XHTML, html5lib svg/math/xlink) x prefix maps that agree/differ/collide/omit x every namespace selector form for elements and attributes, inside and outside :not/:is/:has; renaming every prefix in the document must change no answer.',
+        note='Trusted: reference namespace rules (element/attribute URI read from bs4 .namespace), bs4 namespace bookkeeping.',
+        ref='DESIGN.md 3/C12'),
+    'C13': dict(
+        technique='bounded-exhaustive enumeration of (range, tag) pairs through the public API against an own RFC 4647 implementation, plus property-based testing of language determination against a reference model',
+        text='All ranges x tags over a 9-subtag alphabet up to 4 subtags (thorough: 34.5 M pairs; quick: a stride) plus random subtags and multi-range lists are evaluated by select(:lang(...)) on a document carrying every tag; generated HTML/XHTML/XML documents with lang/xml:lang at drawn depths, meta pragmas and iframes are judged by an independent language-determination model.',
+        note='Trusted: the 20-line RFC 4647 3.3.2 matcher (self-tested on the RFC examples), the language-determination reference.',
+        ref='DESIGN.md 3/C13'),
+    'C17': dict(
+        technique='property-based testing with three oracles: partition laws over soupsieve\'s own answers, reference definitions of each state pseudo-class, and an iframe-isolation metamorphic relation',
+        text='Generated HTML form documents under four HTML tree builders are checked against the partition laws the statement lists, against per-pseudo-class reference definitions (:disabled incl. fieldset/first-legend/optgroup, :default first submit per form, :indeterminate radio groups per form/document, :placeholder-shown, :read-write, ranges, explicit/inherited dir) and against iframe isolation.',
+        note='Trusted: engine/ref_html.py (self-tested on a hand-written form), ref_range for range states; form-in-form trees are excluded from :default/:indeterminate definitions; range inputs affected by the open C18 finding are excluded and counted.',
+        ref='DESIGN.md 3/C17'),
+    'C18': dict(
+        technique='bounded-exhaustive validity sweep + property-based (min,max,value) triples against an independent calendar/number oracle, with an executable defect model for the open finding',
+        text='Every year of the tier\'s set x boundary weeks/months/days/hours/minutes is observed through :in-range/:out-of-range by construction; random boundary-biased triples per input type check ordering, wrapped time ranges and invalid values. The open week-53 finding is attributed only when the implementation\'s answer equals the answer of the oracle with the defect model; any other deviation is a violation.',
+        note='Trusted: calendar.monthrange/date.isocalendar on the 400-year cycle, own microsyntax parsers; numbers with exponents are out of domain.',
+        ref='DESIGN.md 3/C18'),
+    'C19': dict(
+        technique='property-based differential testing against a reference text model, with needles derived from the tree and respelled quoting/escapes',
+        text='Trees with arbitrary interleavings of text/comment/CDATA/PI/doctype/declaration/element nodes (API-built and parsed, HTML with iframes, XML) are queried with :-soup-contains, :-soup-contains-own, :contains (FutureWarning required) and :empty using needles that span node boundaries, occur only in non-text nodes or inside iframes, are empty or contain quotes/backslashes/newlines.',
+        note='Trusted: the reference text model (is_text = NavigableString that is not Comment/CData/PI/Declaration/Doctype), the respeller for needle quoting.',
+        ref='DESIGN.md 3/C19'),
 }
 
 NOT_APPLICABLE = []
